@@ -228,6 +228,105 @@ func (c *ctx) arrayTable(p, name string, size int) []int64 {
 	return out
 }
 
+// switchTable finds the unique function of package p with signature func(<param named type>) <result basic type>
+// whose body is `switch x { case <consts>: return <const> ... [default: return <const>] } [return <const>]` and
+// evaluates it on the 256 values int8(uint8(i)), i = 0..255. nil if there is no such function or more than one.
+func (c *ctx) switchTable(p, paramType, resultType string) []int64 {
+	pk := c.pkg(p)
+	if pk == nil {
+		return nil
+	}
+	var found [][]int64
+	for _, f := range pk.Syntax {
+		if strings.HasSuffix(pk.Fset.Position(f.Pos()).Filename, "_test.go") {
+			continue
+		}
+		for _, d := range f.Decls {
+			fd, ok := d.(*ast.FuncDecl)
+			if !ok || fd.Recv != nil || fd.Body == nil || fd.Type.Params == nil || len(fd.Type.Params.List) != 1 ||
+				len(fd.Type.Params.List[0].Names) != 1 || fd.Type.Results == nil || len(fd.Type.Results.List) != 1 {
+				continue
+			}
+			pt, ok1 := fd.Type.Params.List[0].Type.(*ast.Ident)
+			rt, ok2 := fd.Type.Results.List[0].Type.(*ast.Ident)
+			if !ok1 || !ok2 || pt.Name != paramType || rt.Name != resultType {
+				continue
+			}
+			param := fd.Type.Params.List[0].Names[0].Name
+			stmts := fd.Body.List
+			if len(stmts) == 0 || len(stmts) > 2 {
+				continue
+			}
+			sw, ok := stmts[0].(*ast.SwitchStmt)
+			if !ok || sw.Init != nil {
+				continue
+			}
+			if id, ok := sw.Tag.(*ast.Ident); !ok || id.Name != param {
+				continue
+			}
+			retConst := func(st []ast.Stmt) (int64, bool) {
+				if len(st) != 1 {
+					return 0, false
+				}
+				r, ok := st[0].(*ast.ReturnStmt)
+				if !ok || len(r.Results) != 1 {
+					return 0, false
+				}
+				return constInt(pk, r.Results[0])
+			}
+			cases := map[int64]int64{}
+			def, hasDef, good := int64(0), false, true
+			for _, cs := range sw.Body.List {
+				cc := cs.(*ast.CaseClause)
+				v, ok := retConst(cc.Body)
+				if !ok {
+					good = false
+					break
+				}
+				if cc.List == nil {
+					def, hasDef = v, true
+					continue
+				}
+				for _, e := range cc.List {
+					k, ok := constInt(pk, e)
+					if !ok {
+						good = false
+						break
+					}
+					cases[k] = v
+				}
+			}
+			if !good {
+				continue
+			}
+			if len(stmts) == 2 {
+				v, ok := retConst(stmts[1:])
+				if !ok || hasDef {
+					continue
+				}
+				def, hasDef = v, true
+			}
+			if !hasDef {
+				continue
+			}
+			tab := make([]int64, 256)
+			for i := range tab {
+				k := int64(int8(uint8(i)))
+				if v, ok := cases[k]; ok {
+					tab[i] = v
+				} else {
+					tab[i] = def
+				}
+			}
+			found = append(found, tab)
+		}
+	}
+	if len(found) != 1 {
+		return nil
+	}
+	return found[0]
+}
+
 func bitsOf(t types.Type) (bits int, signed bool, ok bool) {
 	b, isb := t.Underlying().(*types.Basic)
 	if !isb {
@@ -377,6 +476,10 @@ func main() {
 	// tables
 	if t := c.arrayTable("protocol/thrift", "typeToSize", 256); t != nil {
 		c.emit("\n/-- protocol/thrift/binary.go typeToSize, all 256 entries -/\ndef typeToSize : List Int := %s\n", intList(t))
+	} else if t := c.switchTable("protocol/thrift", "TType", "int8"); t != nil {
+		// the table rewritten as a function `func f(t TType) int8 { switch t { case ..: return k } return 0 }`:
+		// evaluated for all 256 values of the type byte (entry i = f(int8(uint8(i))))
+		c.emit("\n/-- protocol/thrift: the fixed-size function of a type byte (a switch over constants), evaluated for all 256 values -/\ndef typeToSize : List Int := %s\n", intList(t))
 	} else {
 		c.miss = append(c.miss, "thrift.typeToSize")
 	}
@@ -627,13 +730,22 @@ func main() {
 		var order []string
 		if fd, _ := c.findFunc("protocol/thrift", "", "PrependError"); fd != nil {
 			ast.Inspect(fd, func(nd ast.Node) bool {
-				ta, ok := nd.(*ast.TypeAssertExpr)
-				if !ok || ta.Type == nil {
-					return true
+				switch x := nd.(type) {
+				case *ast.TypeAssertExpr: // if t, ok := err.(*T); ok { ... }
+					if x.Type != nil {
+						var buf bytes.Buffer
+						printer.Fprint(&buf, token.NewFileSet(), x.Type)
+						order = append(order, buf.String())
+					}
+				case *ast.TypeSwitchStmt: // switch t := err.(type) { case *T: ... }: clauses are tried top-down
+					for _, cs := range x.Body.List {
+						for _, e := range cs.(*ast.CaseClause).List {
+							var buf bytes.Buffer
+							printer.Fprint(&buf, token.NewFileSet(), e)
+							order = append(order, buf.String())
+						}
+					}
 				}
-				var buf bytes.Buffer
-				printer.Fprint(&buf, token.NewFileSet(), ta.Type)
-				order = append(order, buf.String())
 				return true
 			})
 		}
